@@ -1,3 +1,5 @@
+//go:build verif
+
 // Package pd6 decides C08 (delegated prefixes are in the pool, well-formed and
 // disjoint across clients) and C09 (a client keeps its delegated prefix) by
 // running generated DHCPv6 message histories through the handler obtained from
@@ -58,6 +60,9 @@ type Msg struct {
 	IAPDs  []IAPD `json:"iapds,omitempty"`
 	// Repeat: resend this client's previous message byte for byte instead
 	Repeat bool `json:"repeat,omitempty"`
+	// Age: not a message: that many seconds go by without any traffic (the plugin's
+	// records are aged through the verif hook; leases last an hour)
+	Age int `json:"age,omitempty"`
 }
 
 // Case is a pool, some clients and a history
@@ -290,6 +295,7 @@ func (m *model) build(msg *Msg, xid uint32) ([]byte, [][]wireHint) {
 }
 
 func setup(c *Case) (handler.Handler6, error) {
+	prefix.VerifReset()
 	return prefix.Plugin.Setup6(c.Pool, strconv.Itoa(c.Page))
 }
 
@@ -460,13 +466,25 @@ func Exec(c Case) (res core.Result) {
 	}
 	var (
 		sawRenewShape, sawRepeat, sawHintless, sawExact, sawExactAfterMulti bool
-		sawExhaust, sawOtherHint                                            bool
+		sawExhaust, sawOtherHint, sawExpiry, sawManyHints                   bool
 		multiReply                                                          = map[int]bool{}
 	)
 	xid := uint32(0x100)
 	for i := range c.Msgs {
 		msg := &c.Msgs[i]
 		xid++
+		if msg.Age > 0 {
+			d := time.Duration(msg.Age) * time.Second
+			prefix.VerifAge(d)
+			for k, rec := range m.validAt {
+				rec.at = rec.at.Add(-d)
+				m.validAt[k] = rec
+			}
+			if msg.Age > 3600 {
+				sawExpiry = true
+			}
+			continue
+		}
 		if msg.Client < 0 || msg.Client >= len(c.Clients) {
 			continue
 		}
@@ -482,6 +500,11 @@ func Exec(c Case) (res core.Result) {
 			repeat = true
 		} else {
 			wire, resolved = m.build(msg, xid)
+		}
+		for _, ia := range msg.IAPDs {
+			if len(ia.Hints) > 64 && !repeat {
+				sawManyHints = true
+			}
 		}
 		heldBefore := append([]net.IPNet(nil), m.held[msg.Client]...)
 		now := time.Now()
@@ -682,6 +705,12 @@ func Exec(c Case) (res core.Result) {
 	}
 	if sawRepeat {
 		res.Classes = append(res.Classes, "retransmit")
+	}
+	if sawExpiry && holders > 0 {
+		res.Classes = append(res.Classes, "leases-ran-out")
+	}
+	if sawManyHints {
+		res.Classes = append(res.Classes, "ia-pd-with-more-than-64-hints")
 	}
 	if conc {
 		res.Classes = append(res.Classes, "concurrent")
